@@ -126,19 +126,23 @@ def tamper_selftest(run, files):
     src = None
     for f in files:
         lines = open(f).read().splitlines()
-        idx = [i for i, x in enumerate(lines) if '"e":"Snapshot"' in x and '"phase":"post"' in x and '"call":"simulate"' in x]
-        if idx:
-            src = (lines, idx[0])
+        bad = {int(v.get("line", 0)) - 1 for v in run.viol if v.get("file") == f}
+        for i in [i for i, x in enumerate(lines) if '"e":"Snapshot"' in x and '"phase":"post"' in x and '"call":"simulate"' in x]:
+            s = i
+            while '"e":"Cfg"' not in lines[s]:
+                s -= 1
+            e = i
+            while e + 1 < len(lines) and '"e":"Cfg"' not in lines[e + 1]:
+                e += 1
+            if not any(s <= b <= e for b in bad):      # a trace the real code passed (the tampering is the only failure)
+                src = (lines, i, s, e)
+                break
+        if src:
             break
     if not src:
-        raise vlib.InfraError("self-test: no simulate bracket recorded")
-    lines, i = src
-    s = i
-    while '"e":"Cfg"' not in lines[s]:
-        s -= 1
-    e = i
-    while e + 1 < len(lines) and '"e":"Cfg"' not in lines[e + 1]:
-        e += 1
+        run.notes.append("trace-spec self-test skipped: every trace with a simulate bracket already fails a guard")
+        return
+    lines, i, s, e = src
     tr = [json.loads(x) for x in lines[s:e + 1]]
     k = i - s
     cases = {}
